@@ -60,8 +60,27 @@ Theorem C08_exception_clean :
   ~ In (OFail true) (s_trace (fst (run c fs0 tens small sc))) ->
   (forall p, lookup (s_fs (fst (run c fs0 tens small sc))) p = lookup fs0 p)
   /\ map t_valid (s_tens (fst (run c fs0 tens small sc))) = map t_valid tens.
-Proof. intros fs0 tens small sc c e Hwf. exact (exception_clean fs0 tens small sc Hwf c e). Qed.
+Proof.
+  intros fs0 tens small sc c e Hwf Hc Hr Hn.
+  destruct (exception_clean fs0 tens small sc Hwf c e Hc Hr Hn) as (H1 & H2 & _). split; assumption.
+Qed.
 Print Assumptions C08_exception_clean.
+
+(* ... and every external tensor (in particular those backed by the destination) is as valid as before
+   and tobytes() returns what it returned before.  Coherence hypothesis: a tensor that was memory-mapped
+   before the save had mapped the file's then-current content. *)
+Theorem C08_exception_tensors_read_old :
+  forall fs0 tens small sc c e, single_wf fs0 sc ->
+  crash_at c = None ->
+  snd (run c fs0 tens small sc) = SRaise e ->
+  ~ In (OFail true) (s_trace (fst (run c fs0 tens small sc))) ->
+  (forall h t d, nth_error tens h = Some t -> t_map t = Some d -> exists m, file_at fs0 (t_path t) = Some (d, m)) ->
+  forall h t, nth_error tens h = Some t ->
+  exists t', nth_error (s_tens (fst (run c fs0 tens small sc))) h = Some t'
+    /\ t_valid t' = t_valid t
+    /\ read_tensor (s_fs (fst (run c fs0 tens small sc))) t' = read_tensor fs0 t.
+Proof. intros fs0 tens small sc c e Hwf. exact (exception_tensors_read_old fs0 tens small sc Hwf c e). Qed.
+Print Assumptions C08_exception_tensors_read_old.
 
 (* A sharded save changes no pre-existing path, whatever the interruption (pre-flight refusal when a
    shard file exists; otherwise only fresh names are written). *)
